@@ -123,6 +123,7 @@ func genDir(rt *rapid.T, label string, window int) DirScript {
 		d.PauseEvery = rapid.IntRange(1, 8).Draw(rt, label+".pause_every")
 		d.PauseUs = rapid.SampledFrom([]int{1, 50, 500, 2000}).Draw(rt, label+".pause_us")
 	}
+	d.ZeroEvery = rapid.SampledFrom([]int{0, 8, 8, 5, 13}).Draw(rt, label+".zero_every")
 	if rapid.IntRange(0, 3).Draw(rt, label+".kicked") == 0 {
 		d.Kicks = rapid.IntRange(1, 4).Draw(rt, label+".kicks")
 		d.KickUs = rapid.SampledFrom([]int{50, 500, 2000}).Draw(rt, label+".kick_us")
@@ -496,7 +497,7 @@ func TestWorkload(t *testing.T) {
 	if p != "C23" && p != "C24" {
 		t.Skip("workload belongs to C23 and C24")
 	}
-	rule := "rapid: 1-8 concurrent streams opened from either side over two real multiplexers (receive windows 1..200000, 1-5 write buffers, backlog 1-10, optional heartbeats, bounded carrier buffering, read fragmentation), per direction a writer script (chunks 0..200 kB, half-close or close at the end) and a reader script (buffers 1..70 kB, pauses, early close), content keyed by stream and direction; "
+	rule := "rapid: 1-8 concurrent streams opened from either side over two real multiplexers (receive windows 1..200000, 1-5 write buffers, backlog 1-10, optional heartbeats, bounded carrier buffering, read fragmentation), per direction a writer script (chunks 0..200 kB, half-close or close at the end) and a reader script (buffers 1..70 kB, about every 8th read with a zero-length buffer, pauses, early close), content keyed by stream and direction; "
 	if p == "C23" {
 		rule += "oracle: bytes read are a prefix of the bytes written and correct at every offset, end-of-stream only after the writer (half-)closed and everything was read, complete delivery when nothing was closed early, documented errors only, no teardown; "
 	} else {
